@@ -158,13 +158,30 @@ def leaves(W, bv, t, bodies=None, depth=0):
             return [("none",), ("some", t[2][1])]
         if callee in lib.WRAPPERS and callee.split("::")[-1] in ("clone", "into", "from") and t[2]:
             return leaves(W, bv, t[2][0], bodies, depth + 1)
+        if callee == OPTION + "filter" and len(t[2]) == 2:
+            # x.filter(p): every Some alternative of x may also become None (the predicate is checked by whoever needs it)
+            out = []
+            for l in leaves(W, bv, t[2][0], bodies, depth + 1):
+                if l[0] == "some":
+                    out += [("none",), l]
+                elif l[0] == "none":
+                    out.append(l)
+                else:
+                    return [("other", t)]
+            return out
         if callee in (OPTION + "and_then", OPTION + "map") and len(t[2]) == 2:
             clo = _closure_of(t[2][1])
             fnpath = _unref(t[2][1])
-            if clo is None and fnpath[0] == "const" and isinstance(fnpath[1], dict) and fnpath[1].get("def"):
+            fdef = None
+            if clo is None and fnpath[0] == "const" and isinstance(fnpath[1], dict):
+                fdef = fnpath[1].get("def")
+                ty_ = bv.crate.types[fnpath[1]["t"]] if isinstance(fnpath[1].get("t"), int) else {}
+                if not fdef and ty_.get("k") == "fndef":
+                    fdef = ty_.get("d")
+            if fdef:
                 # a function path instead of a closure: x.and_then(f) / x.map(f)
                 payload = payload_of(W, bv, t[2][0], bodies)
-                app = ("call", fnpath[1]["def"], [payload], None, fnpath[1]["def"].split("::")[-1])
+                app = ("call", fdef, [payload], None, fdef.split("::")[-1])
                 if callee.endswith("and_then"):
                     return [("none",), ("other", app)]
                 return [("none",), ("some", app)]
@@ -208,6 +225,10 @@ def payload_of(W, bv, x, bodies=None):
             if bodies is not None and cb not in bodies:
                 bodies.append(cb)
             return simplify(lib.subst_params(_ann(cb), [clo, payload_of(W, bv, y[2][0], bodies)]))
+    if y[0] == "call" and lib.norm(y[1]) == OPTION + "filter" and len(y[2]) == 2:
+        return payload_of(W, bv, y[2][0], bodies)
+    if y[0] == "agg" and (y[2] or "").split("::")[-1] == "Some" and len(y[3]) == 1:
+        return y[3][0]
     return ("field", ("downcast", x, "Some"), "0", 0)
 
 
